@@ -170,44 +170,6 @@ theorem C02_effects_converge_nowrite :
   | false => exact .inl rfl
   | true => exact .inr (C02_effects_converge_readonly p ops hwf ht hops hidle i hi (hro i hi))
 
-/-- does body `e` read node `y` (tracked or not)? -/
-def Expr.readsNode (y : Nat) : Expr → Bool
-  | .lit _ => false
-  | .rd _ id => id == y
-  | .add a b => a.readsNode y || b.readsNode y
-  | .mulc _ a => a.readsNode y
-  | .ite c t e => c.readsNode y || t.readsNode y || e.readsNode y
-  | .seq a b => a.readsNode y || b.readsNode y
-  | .wr _ a => a.readsNode y
-
-/-- does body `e` write signal `sg`? -/
-def Expr.writesSig (sg : Nat) : Expr → Bool
-  | .lit _ => false
-  | .rd _ _ => false
-  | .add a b => a.writesSig sg || b.writesSig sg
-  | .mulc _ a => a.writesSig sg
-  | .ite c t e => c.writesSig sg || t.writesSig sg || e.writesSig sg
-  | .seq a b => a.writesSig sg || b.writesSig sg
-  | .wr id a => id == sg || a.writesSig sg
-
-/-- node `x` depends (transitively, through memo bodies) on node `sg`; fuel = number of nodes -/
-def dependsOn (p : Prog) : Nat → Nat → Nat → Bool
-  | 0, _, _ => false
-  | f + 1, x, sg =>
-    x == sg ||
-    (match p[x]? with
-     | some (.memo b) => (List.range x).any fun y => b.readsNode y && dependsOn p f y sg
-     | _ => false)
-
-/-- no effect writes a signal on which one of the nodes it reads depends -/
-def noSelfFeedback (p : Prog) : Bool :=
-  (List.range p.length).all fun e =>
-    match p[e]? with
-    | some (.eff b) =>
-      (List.range e).all fun sg => !(b.writesSig sg) ||
-        (List.range e).all fun y => !(b.readsNode y) || !(dependsOn p p.length y sg)
-    | _ => true
-
 /-- OPEN (stronger than `C02_effects_converge_readonly`, not attempted): effects may write, provided no
 effect writes a signal on which one of the nodes it reads depends (no self-feedback, which excludes
 F-C02-2); then ALL effects are current at idle. -/
